@@ -551,6 +551,7 @@ func C06(p *core.Program, r *core.Report) {
 	checkNarrowCounter(p, r, fwd, incCalls)
 
 	checkRemovalLoops(p, r)
+	checkStaleBlockPointers(p, r)
 	// the blocks this node adds on the way (previous node, routing metadata) get a number no other block has
 	checkFreeNumberSearch(p, r)
 
@@ -991,4 +992,185 @@ func checkAgeIncrementSaturates(p *core.Program, r *core.Report) {
 	})
 	r.Min("additions in BundleAgeBlock.Increment", 1)
 	r.Count("additions in BundleAgeBlock.Increment", n)
+}
+
+
+// checkStaleBlockPointers: Bundle.ExtensionBlock / PayloadBlock hand out a
+// pointer INTO Bundle.CanonicalBlocks. Removing or adding a block (or sorting
+// the blocks) moves the elements, so a pointer taken before such a change
+// addresses another block afterwards. No path may lead from a look-up through
+// a change of a block list to a use of the pointer without a new look-up.
+func checkStaleBlockPointers(p *core.Program, r *core.Report) {
+	// functions that change a block list: a store to a CanonicalBlocks field, and *Bundle methods calling such
+	writes := func(fn *ssa.Function) bool {
+		w := false
+		core.EachInstr(fn, func(in ssa.Instruction) {
+			if st, ok := in.(*ssa.Store); ok {
+				if fa, ok := st.Addr.(*ssa.FieldAddr); ok && fieldNameOf(fa) == "CanonicalBlocks" {
+					w = true
+				}
+			}
+		})
+		return w
+	}
+	mut := map[*ssa.Function]bool{}
+	for _, fn := range p.RepoFuncs() {
+		if fn.Signature.Recv() != nil && strings.HasSuffix(fn.Signature.Recv().Type().String(), "bpv7.Bundle") && writes(fn) {
+			mut[fn] = true
+		}
+	}
+	for changed := true; changed; {
+		changed = false
+		for _, fn := range p.RepoFuncs() {
+			if mut[fn] || fn.Signature.Recv() == nil || !strings.HasSuffix(fn.Signature.Recv().Type().String(), "bpv7.Bundle") {
+				continue
+			}
+			core.EachInstr(fn, func(in ssa.Instruction) {
+				if c, ok := in.(ssa.CallInstruction); ok && mut[core.Callee(c)] {
+					if !mut[fn] {
+						mut[fn] = true
+						changed = true
+					}
+				}
+			})
+		}
+	}
+	nLook := 0
+	for _, fn := range p.RepoFuncs() {
+		if fn.Pkg != nil && strings.HasSuffix(fn.Pkg.Pkg.Path(), "pkg/bpv7") && mut[fn] {
+			continue // the mutators themselves work on indices
+		}
+		var changes []ssa.Instruction
+		core.EachInstr(fn, func(in ssa.Instruction) {
+			switch x := in.(type) {
+			case *ssa.Store:
+				if fa, ok := x.Addr.(*ssa.FieldAddr); ok && fieldNameOf(fa) == "CanonicalBlocks" {
+					changes = append(changes, in)
+				}
+			case ssa.CallInstruction:
+				if mut[core.Callee(x)] {
+					changes = append(changes, in)
+				}
+			}
+		})
+		core.EachInstr(fn, func(in ssa.Instruction) {
+			c, ok := in.(*ssa.Call)
+			if !ok {
+				return
+			}
+			cn := core.CalleeName(c)
+			if !core.NameIs(cn, bp7+".Bundle.ExtensionBlock") && !core.NameIs(cn, bp7+".Bundle.PayloadBlock") && !core.NameIs(cn, bp7+".Bundle.ExtensionBlockByBlockNumber") {
+				return
+			}
+			nLook++
+			if len(changes) == 0 {
+				return
+			}
+			// uses of the pointer (through extract / phi / field address)
+			var uses []ssa.Instruction
+			seen := map[ssa.Value]bool{}
+			var follow func(v ssa.Value)
+			follow = func(v ssa.Value) {
+				if seen[v] || v.Referrers() == nil {
+					return
+				}
+				seen[v] = true
+				for _, ref := range *v.Referrers() {
+					switch x := ref.(type) {
+					case *ssa.DebugRef:
+					case *ssa.Extract:
+						if x.Index == 0 {
+							follow(x)
+						}
+					case *ssa.Phi:
+						follow(x)
+					case *ssa.FieldAddr:
+						uses = append(uses, x)
+					default:
+						uses = append(uses, ref)
+					}
+				}
+			}
+			follow(c)
+			key := "stale-block-pointer/" + fname(fn) + "/" + shortName(cn) + "@" + constArgStr(c)
+			rule := "a *CanonicalBlock handed out by a look-up points into the bundle's block slice; it is not used on a path on which a block was removed, added or the blocks were sorted after the look-up (the slot then holds another block)"
+			bad := ""
+			for _, m := range changes {
+				if !pathBetween(in, m, nil) {
+					continue
+				}
+				for _, u := range uses {
+					if pathBetween(m, u, in) {
+						bad = fmt.Sprintf("looked up at %s, the block list is changed at %s, the pointer is used at %s", p.Pos(in.Pos()), p.Pos(m.Pos()), p.Pos(u.Pos()))
+					}
+				}
+			}
+			r.Check(bad == "", key, rule, p.Pos(in.Pos()), "", bad+": a stored bundle with an unknown block flagged for removal in front of the block looked up gets the update written into the block that slid into its slot")
+		})
+	}
+	r.Min("block look-ups that hand out a pointer into the block slice", 10)
+	r.Count("block look-ups that hand out a pointer into the block slice", nLook)
+}
+
+func fieldNameOf(fa *ssa.FieldAddr) string {
+	t := fa.X.Type().Underlying()
+	if pt, ok := t.(*types.Pointer); ok {
+		if st, ok := pt.Elem().Underlying().(*types.Struct); ok && fa.Field < st.NumFields() {
+			return st.Field(fa.Field).Name()
+		}
+	}
+	return ""
+}
+
+func constArgStr(c *ssa.Call) string {
+	for _, a := range c.Common().Args {
+		if k, ok := a.(*ssa.Const); ok && k.Value != nil {
+			return k.Value.String()
+		}
+	}
+	return "-"
+}
+
+func instrIdx(in ssa.Instruction) int {
+	for i, x := range in.Block().Instrs {
+		if x == in {
+			return i
+		}
+	}
+	return -1
+}
+
+// pathBetween: some CFG path leads from just behind a to b without executing avoid (nil: no restriction).
+func pathBetween(a, b, avoid ssa.Instruction) bool {
+	blocked := func(blk *ssa.BasicBlock, from, to int) bool { // avoid lies in blk within (from, to)
+		if avoid == nil || avoid.Block() != blk {
+			return false
+		}
+		i := instrIdx(avoid)
+		return i > from && i < to
+	}
+	if a.Block() == b.Block() && instrIdx(a) < instrIdx(b) && !blocked(a.Block(), instrIdx(a), instrIdx(b)) {
+		return true
+	}
+	if blocked(a.Block(), instrIdx(a), len(a.Block().Instrs)) {
+		return false
+	}
+	seen := map[*ssa.BasicBlock]bool{}
+	work := append([]*ssa.BasicBlock{}, a.Block().Succs...)
+	for len(work) > 0 {
+		blk := work[len(work)-1]
+		work = work[:len(work)-1]
+		if seen[blk] {
+			continue
+		}
+		seen[blk] = true
+		if blk == b.Block() && !blocked(blk, -1, instrIdx(b)) {
+			return true
+		}
+		if blocked(blk, -1, len(blk.Instrs)) {
+			continue
+		}
+		work = append(work, blk.Succs...)
+	}
+	return false
 }
